@@ -25,6 +25,10 @@ pub struct Case {
     /// node on which an arbiter client of database r stays connected during the commands (None = no arbiter connected)
     #[serde(default)]
     pub arbiter_at: Option<usize>,
+    /// before the commands, `debug force-election` is sent to this node and the cluster settles: the commands then run in
+    /// a cluster whose primary has changed (or was confirmed) by an election
+    #[serde(default)]
+    pub elect_at: Option<usize>,
 }
 
 fn conflict_id(c: &Cluster) -> Option<(String, i32)> {
@@ -71,6 +75,24 @@ pub fn run_case(ctx: &Ctx, case: &Case) -> Outcome {
             fail = Some(("C14|set-up".into(), "no quiescence after the arbiter connected".into()));
         }
     }
+    let mut primary_now = 0usize;
+    if let (Some(e), None) = (case.elect_at, &fail) {
+        let e = e % case.n;
+        c.client(e, vec![auth.clone(), "debug force-election".into()]);
+        if !c.run(&mut |_| 0, 400_000) {
+            fail = Some(("C14|set-up".into(), "no quiescence after the forced election".into()));
+        }
+        let prim: Vec<usize> = (0..case.n).filter(|i| c.role(*i) == Some(nundb::bo::ClusterRole::Primary)).collect();
+        if fail.is_none() && prim.len() != 1 {
+            // not this property's business (C07): nothing to measure in a cluster without exactly one primary
+            drop(c);
+            ctx.drop_dir(&scratch);
+            let mut o = Outcome::ok(false);
+            o.classes.push("forced-election-did-not-leave-exactly-one-primary");
+            return o;
+        }
+        primary_now = prim.first().cloned().unwrap_or(0);
+    }
     let at = case.at % case.n;
     let secondaries = case.n - 1;
     let mut choose = chooser(case.schedule.clone());
@@ -110,7 +132,7 @@ pub fn run_case(ctx: &Ctx, case: &Case) -> Outcome {
         }
         let msgs: Vec<&crate::cluster::Msg> = c.delivered[mark..].iter().collect();
         let word = line.split(' ').next().unwrap_or("").to_string();
-        let role = if at == 0 {
+        let role = if at == primary_now {
             "on-primary"
         } else if case.arbiter_at.map(|a| a % case.n) == Some(at) {
             "on-secondary-with-the-arbiter-connected-there"
@@ -135,6 +157,17 @@ pub fn run_case(ctx: &Ctx, case: &Case) -> Outcome {
         if forwards + copies + fanout > 0 {
             any_traffic = true;
         }
+        if case.elect_at.is_some() {
+            // after a change of primary the links keep the kinds they were opened with: only the generic bound is
+            // judged (command lines between different nodes: one forward if issued on a secondary + one copy per secondary)
+            let lines_between_nodes = msgs.iter().filter(|m| m.dir == "c2s" && m.from != m.to).count();
+            let bound = if at == primary_now { secondaries } else { secondaries + 1 };
+            if lines_between_nodes > bound {
+                let showl = msgs.iter().filter(|m| m.dir == "c2s" && m.from != m.to).map(|m| format!("n{}->n{}[{}] {}", m.from, m.to, m.kind, m.line.trim_end())).collect::<Vec<_>>();
+                fail = Some((format!("C14|more-command-lines-than-one-forward-plus-one-copy-per-secondary|{}|{}|after-an-election", word, role), format!("{:?} at n{} (primary n{} after `debug force-election` at n{}): {} command lines between nodes, bound {}: {:?}", line, at, primary_now, case.elect_at.unwrap() % case.n, lines_between_nodes, bound, showl)));
+            }
+            continue;
+        }
         let show = || msgs.iter().filter(|m| m.dir == "c2s" || m.line.starts_with("ack ")).map(|m| format!("n{}->n{}[{}] {}", m.from, m.to, m.kind, m.line.trim_end())).collect::<Vec<_>>();
         if fanout > 0 {
             fail = Some((format!("C14|secondary-fans-out|{}|{}", word, role), format!("{:?} at n{}: {} lines sent from a secondary to another secondary: {:?}", line, at, fanout, show())));
@@ -156,6 +189,9 @@ pub fn run_case(ctx: &Ctx, case: &Case) -> Outcome {
     if any_traffic {
         out.classes.push("command-caused-inter-node-messages");
     }
+    if case.elect_at.is_some() {
+        out.classes.push("commands-after-a-forced-election");
+    }
     if arbiter_on_secondary && case.cmds.iter().any(|c| c == "CONFLICT" || c == "RESOLVE") {
         out.classes.push("conflict-or-resolution-with-the-arbiter-connected-to-a-secondary");
     }
@@ -169,13 +205,19 @@ fn all_single() -> Vec<Case> {
         for at in 0..n {
             for cmd in commands() {
                 for schedule in [vec![], vec![40000u16, 0, 0, 20000, 0, 65535, 0, 0, 30000, 0, 0, 0, 50000]] {
-                    v.push(Case { n, at, cmds: vec![cmd.to_string()], schedule, arbiter_at: None });
+                    v.push(Case { n, at, cmds: vec![cmd.to_string()], schedule, arbiter_at: None, elect_at: None });
+                }
+            }
+            // the replicated commands after a forced election at each node
+            for e in 0..n {
+                for cmd in ["set a v", "increment n 2", "remove a", "set-safe a 1 v", "create-user u utok", "snapshot false"] {
+                    v.push(Case { n, at, cmds: vec![cmd.to_string()], schedule: vec![], arbiter_at: None, elect_at: Some(e) });
                 }
             }
             // conflicts found and resolved while an arbiter client is connected to each node
             for arb in 0..n {
                 for cmds in [vec!["CONFLICT"], vec!["RESOLVE"], vec!["CONFLICT", "CONFLICT"], vec!["CONFLICT", "RESOLVE"]] {
-                    v.push(Case { n, at, cmds: cmds.iter().map(|s| s.to_string()).collect(), schedule: vec![], arbiter_at: Some(arb) });
+                    v.push(Case { n, at, cmds: cmds.iter().map(|s| s.to_string()).collect(), schedule: vec![], arbiter_at: Some(arb), elect_at: None });
                 }
             }
         }
@@ -187,7 +229,7 @@ pub fn run(ctx: &Ctx, rep: &mut Report) {
     enumerate(ctx, rep, "every-command-on-every-node", all_single().into_iter(), |c| run_case(ctx, c));
     if rep.failures.is_empty() {
         let n = ctx.amount(600, 20_000);
-        let strat = (2..4usize, 0..3usize, prop::collection::vec(select(commands()), 2..4), prop::collection::vec(prop_oneof![3 => Just(0u16), 1 => any::<u16>()], 0..40), prop_oneof![2 => Just(None), 1 => (0..3usize).prop_map(Some)]).prop_map(|(n, at, cmds, schedule, arbiter_at)| Case { n, at, cmds: cmds.into_iter().map(|s| s.to_string()).collect(), schedule, arbiter_at });
+        let strat = (2..4usize, 0..3usize, prop::collection::vec(select(commands()), 2..4), prop::collection::vec(prop_oneof![3 => Just(0u16), 1 => any::<u16>()], 0..40), prop_oneof![2 => Just(None), 1 => (0..3usize).prop_map(Some)], prop_oneof![3 => Just(None), 1 => (0..3usize).prop_map(Some)]).prop_map(|(n, at, cmds, schedule, arbiter_at, elect_at)| Case { n, at, cmds: cmds.into_iter().map(|s| s.to_string()).collect(), schedule, arbiter_at: if elect_at.is_some() { None } else { arbiter_at }, elect_at });
         explore_with(ctx, rep, "command-sequences", n, 150, strat, |c| run_case(ctx, c));
     }
 }
